@@ -188,12 +188,12 @@ def pair_flags(chk: Check) -> None:
     prog = chk.prog
 
     def reset_in_finally(f: FuncInfo, attr: str, raised: str, lowered: str, what: str) -> None:
-        sets = [n for n in ast.walk(f.node) if isinstance(n, ast.Assign) and norm(n.targets[0]) == f'self.{attr}' and norm(n.value) == raised]
-        ok = False
-        for t in [n for n in ast.walk(f.node) if isinstance(n, ast.Try) and n.finalbody]:
-            resets = [s for s in t.finalbody if isinstance(s, ast.Assign) and norm(s.targets[0]) == f'self.{attr}' and norm(s.value) == lowered]
-            if resets and (not sets or all(any(x is s for x in ast.walk(t)) for s in sets)):
-                ok = True
+        # path rule: from every statement that raises the flag, each way out (normal or by exception) passes a statement that lowers it
+        from ..rules import flag_lowered_on_every_exit
+        ok, n_up = flag_lowered_on_every_exit(f, f'self.{attr}', raised, lowered)
+        has_final = any(isinstance(s, ast.Assign) and norm(s.targets[0]) == f'self.{attr}' and norm(s.value) == lowered
+                        for t in ast.walk(f.node) if isinstance(t, ast.Try) for s in t.finalbody)
+        ok = ok and has_final
         chk.ob('PAIR-flag-reset', f, ok, what, kind=f'finally-reset:{attr}', expr=attr)
 
     tt = prog.func('base.state_machine.StateMachine.transition_to')
